@@ -16,5 +16,9 @@ func main() {
 		checks.C12Child(os.Args[2:])
 		return
 	}
+	if len(os.Args) > 1 && os.Args[1] == "C19SOLO" {
+		checks.C19Solo(os.Args[2:])
+		return
+	}
 	vk.Main(checks.All())
 }
